@@ -319,7 +319,7 @@ def main():
                 files=["sopht/utils/io.py"])
     chk.maybe_replay()
     sopht_modules()
-    rts = ["float64"] if chk.quick else ["float64", "float32"]
+    rts = ["float64", "float32"]
     for rt in rts:
         for dim, grid in ((2, (2, 3)), (3, (2, 2, 3))):
             fam = sorted({1, dim - 1, dim, dim + 1, 5})
